@@ -535,7 +535,7 @@ func c03CheckCases(ctx *Ctx, res *Result, cases []c03Case, count bool) {
 }
 
 func c03Unit(ctx *Ctx, res *Result, rng *Rng) {
-	n := 2000
+	n := 3000
 	if ctx.Tier == "thorough" {
 		n = 100000
 	}
